@@ -163,9 +163,9 @@ pub fn eval_constant(egraph: &EGraph, enode: &Expr) -> ConstValue {
         }
         // TODO: handle cast error
         a.cast(ty).ok()
-    } else if let &Max(a) | &Min(a) | &Avg(a) | &First(a) | &Last(a) = enode {
-        x(a).cloned()
     } else {
+        // (an aggregate of a constant is not that constant: it is NULL over an empty input, and the
+        // aggregation operators can not run a constant in place of an aggregate call)
         None
     }
 }
